@@ -20,10 +20,10 @@ META = dict(
           'non-trivial = distinct (logic, argument) with verdict INVALID and >= 2 rule applications.'),
     assumptions=['REF-SEM semantics incl. lattice reading of the FDE family',
                  'monitoring cap of 300/600 steps: capped runs have no verdict and are skipped (counted)'],
-    min_events={'quick': {'open_branches_checked': 3000, 'branch_nodes_evaluated': 20000, 'logics': 57, 'library_countermodel_tests': 2000},
-                'thorough': {'open_branches_checked': 40000, 'branch_nodes_evaluated': 300000, 'logics': 57}},
-    budget=dict(quick=420, thorough=3000),
-    unit_timeout=dict(quick=330, thorough=2400),
+    min_events={'quick': {'open_branches_checked': 3000, 'branch_nodes_evaluated': 20000, 'logics': 52, 'library_countermodel_tests': 2000},
+                'thorough': {'open_branches_checked': 40000, 'branch_nodes_evaluated': 300000, 'logics': 52}},
+    budget=dict(quick=1500, thorough=3000),
+    unit_timeout=dict(quick=900, thorough=3000),
 )
 
 NRANDOM = dict(quick=70, thorough=900)
